@@ -1160,6 +1160,11 @@ class Sequence:
         returns a tuple of (dmax, seqDeltaMax)
         """
 
+        # If the permutant is wanted but was never recorded (dmax cached by an
+        # earlier call or inherited) the search has to be run again
+        if returnSeqDeltaMax and self.seqDeltaMax is None:
+            self.dmax = -1
+
         # If this has been computed already, then return it
         if self.dmax != -1 and not returnSeqDeltaMax:
           return self.dmax
